@@ -30,6 +30,17 @@ Theorem C09_suffix_of_learned_word :
     option_map rstr (nth_error l (prev_selection Q sels l pre w tr)) = Some (pre ++ sel ++ tr).
 Proof. exact suffix_learned_is_preselected. Qed.
 
+(** ... and which split that is: reading the remainders from the shortest on (one letter, two, ...), i.e. the bases from the
+    longest on, the first base with a learned choice whose remainder is a known suffix decides.  A shorter learned base is
+    only consulted when no longer one fits - for EVERY store, word and suffix table. *)
+Theorem C09_longest_learned_base_decides :
+  forall (Q : oracles) (sels : list (str * str)) (w : str) (i : nat) (suf base : str),
+    (1 <= i <= length w - 1)%nat ->
+    suffix_of Q (skipn (length w - i) w) = Some suf -> assocS (firstn (length w - i) w) sels = Some base ->
+    (forall j, (1 <= j < i)%nat -> suffix_of Q (skipn (length w - j) w) = None \/ assocS (firstn (length w - j) w) sels = None) ->
+    sel_by_suffix Q sels w (seq 1 (length w - 1)) = join base suf.
+Proof. exact sel_longest_base. Qed.
+
 (** Committing the preselected candidate changes nothing and writes nothing. *)
 Theorem C09_preselected_commit_is_noop : forall c s, p_commit c s (p_prev s) = Some (set_buf s [], false).
 Proof. exact commit_preselected_noop. Qed.
@@ -57,3 +68,4 @@ Proof. vm_compute. split; reflexivity. Qed.
 Print Assumptions C09_commit_learns.
 Print Assumptions C09_learned_is_preselected.
 Print Assumptions C09_suffix_of_learned_word.
+Print Assumptions C09_longest_learned_base_decides.
